@@ -99,6 +99,7 @@ pub fn contract_named_number_lookup<C: Ctx>(cx: &mut C) {
         let got = find_tld_or_enum_value_by_name(&NAMES[governing].to_string(), &"hi".to_string(), &tlds);
         if declares[governing] {
             vob!(cx, "C04.named_number.resolved_against_the_governing_type", got == Some(ASN1Value::Integer(10 * (governing as i128 + 1))));
+            vob!(cx, "C06.named_number.bound_used_for_the_width_is_the_governing_types", got == Some(ASN1Value::Integer(10 * (governing as i128 + 1))));
         } else if (0..k).any(|i| declares[i]) {
             vob!(cx, "C04.named_number.falls_back_to_a_declaring_type", matches!(got, Some(ASN1Value::Integer(v)) if (0..k).any(|i| declares[i] && v == 10 * (i as i128 + 1))));
         } else {
